@@ -51,16 +51,18 @@ class Antenna(object):
         """
         self.rng = xp.random.default_rng(seed)
         
-        self.sample_rate = unit_utils.get_value(sample_rate, u.Hz)
+        self.sample_rate = float(unit_utils.get_value(sample_rate, u.Hz))
         self.dt = 1 / self.sample_rate
         
-        self.fch1 = unit_utils.get_value(fch1, u.Hz)
+        self.fch1 = float(unit_utils.get_value(fch1, u.Hz))
         self.ascending = ascending
         
         assert num_pols in [1, 2]
         self.num_pols = num_pols
         
-        self.t_start = t_start
+        # A plain float: a float32 start time would freeze the clock (float32 += small float), 
+        # a 0-d array would be shared and advanced in place by every stream holding it
+        self.t_start = float(t_start)
         self.start_obs = True
         
         self.x = data_stream.DataStream(sample_rate=self.sample_rate,
@@ -86,7 +88,7 @@ class Antenna(object):
         Set start time before next set of samples.
         """
         self.start_obs = True
-        self.t_start = t
+        self.t_start = float(t)
         self.x.set_time(t)
         if self.num_pols == 2:
             self.y.set_time(t)
@@ -181,16 +183,18 @@ class MultiAntennaArray(object):
         self.max_delay = int(xp.max(self.delays))
         
         self.num_antennas = num_antennas
-        self.sample_rate = unit_utils.get_value(sample_rate, u.Hz)
+        self.sample_rate = float(unit_utils.get_value(sample_rate, u.Hz))
         self.dt = 1 / self.sample_rate
         
-        self.fch1 = unit_utils.get_value(fch1, u.Hz)
+        self.fch1 = float(unit_utils.get_value(fch1, u.Hz))
         self.ascending = ascending
         
         assert num_pols in [1, 2]
         self.num_pols = num_pols
         
-        self.t_start = t_start
+        # A plain float: a float32 start time would freeze the clock (float32 += small float), 
+        # a 0-d array would be shared and advanced in place by every stream holding it
+        self.t_start = float(t_start)
         self.start_obs = True
         
         self.antennas = []
@@ -227,7 +231,7 @@ class MultiAntennaArray(object):
         Set start time before next set of samples.
         """
         self.start_obs = True
-        self.t_start = t
+        self.t_start = float(t)
         self.bg_x.set_time(t)
         if self.num_pols == 2:
             self.bg_y.set_time(t)
